@@ -11,7 +11,7 @@ from ..model import qual, get_kw
 from ..symx import Expander, ref_eval
 from ..anf import R
 from .. import anf
-from .common import formula_ob, struct_ob, guard, last_return
+from .common import formula_ob, struct_ob, guard, last_return, U
 from ..report import AnalysisError
 
 REL = "inference/priors.py"
@@ -100,8 +100,8 @@ def run(prog, tier):
             # compares the routed coordinates with the support limits
             rets = [r for r in ast.walk(fn) if isinstance(r, ast.Return)]
             floors = [r for r in rets if floor_const(r.value)]
-            txt = " ".join(ast.unparse(g.test) for g in guards)
-            body_txt = ast.unparse(fn)
+            txt = " ".join(U(g.test) for g in guards)
+            body_txt = U(fn)
             if law == "exponential":
                 ok = len(floors) == 1 and len(guards) == 1 and _cmp_is(guards[0].test, "Lt", "theta[self.variables]", 0.0)
             else:
@@ -119,7 +119,7 @@ def run(prog, tier):
         ex.n_atom = n_atom
         val = ret.value
         detail = ""
-        if isinstance(val, ast.Call) and ast.unparse(val.func) == "where" and len(val.args) == 3:
+        if isinstance(val, ast.Call) and U(val.func) == "where" and len(val.args) == 3:
             # where(in-support, derivative, 0)
             cond_ok = _cmp_is(val.args[0], "GtE", "theta[self.variables]", 0.0) and support[0] == 0.0
             zero = guard(lambda: ex.eval(val.args[2], {"theta": R.sym("theta")}))
@@ -160,7 +160,7 @@ def run(prog, tier):
                     env2[kw] = guard(lambda: ex.eval(node, {}))
             if missing:
                 obs.append(struct_ob("sampler-density-agreement", qual(c, sfn), False,
-                                     f"draw {ast.unparse(call)} leaves {missing} at numpy defaults",
+                                     f"draw {U(call)} leaves {missing} at numpy defaults",
                                      REL, sfn.lineno))
             else:
                 sdens = anf.sum_(guard(lambda: ref_eval(stext, env2)), is_arr, n_atom)
@@ -180,7 +180,7 @@ def run(prog, tier):
                 okb, why = _bounds_match(bsites[0][3], ssupport, call, slaw)
             obs.append(struct_ob("bounds-are-support", qual(ci, init), okb,
                                  f"advertised bounds must equal the support of {slaw}: {why}", REL, init.lineno,
-                                 slots={"bounds": ast.unparse(bsites[0][3]) if bsites else None, "support": str(ssupport)}))
+                                 slots={"bounds": U(bsites[0][3]) if bsites else None, "support": str(ssupport)}))
 
         # ---------------- combine: one order for indices and every parameter array
         c, cfn = prog.method(ci.name, "combine")
@@ -194,16 +194,16 @@ def run(prog, tier):
     c, fn = prog.method("JointPrior", "__call__")
     ret = last_return(fn)
     ok = False
-    if ret is not None and isinstance(ret.value, ast.Call) and ast.unparse(ret.value.func) == "sum":
+    if ret is not None and isinstance(ret.value, ast.Call) and U(ret.value.func) == "sum":
         g = ret.value.args[0]
         if isinstance(g, (ast.GeneratorExp, ast.ListComp)) and len(g.generators) == 1 and not g.generators[0].ifs:
             gen = g.generators[0]
-            ok = (ast.unparse(gen.iter) == "self.components" and isinstance(g.elt, ast.Call)
-                  and ast.unparse(g.elt.func) == ast.unparse(gen.target)
-                  and [ast.unparse(a) for a in g.elt.args] == [fn.args.args[1].arg])
+            ok = (U(gen.iter) == "self.components" and isinstance(g.elt, ast.Call)
+                  and U(g.elt.func) == U(gen.target)
+                  and [U(a) for a in g.elt.args] == [fn.args.args[1].arg])
     obs.append(struct_ob("routing", qual(c, fn), ok,
                          "JointPrior.__call__ must be the sum over all components of c(theta)", REL, fn.lineno,
-                         slots={"return": ast.unparse(ret.value) if ret else None}))
+                         slots={"return": U(ret.value) if ret else None}))
     init = jp.methods["__init__"]
     obs.append(_joint_bounds(jp, init))
     obs.append(_combine_coverage(prog, jp, init))
@@ -247,7 +247,7 @@ def _cmp_is(test, opname, left_text, right_const):
             rc = ast.literal_eval(node.comparators[0])
         except Exception:
             return False
-        return type(node.ops[0]).__name__ == opname and ast.unparse(node.left) == left_text and rc == right_const
+        return type(node.ops[0]).__name__ == opname and U(node.left) == left_text and rc == right_const
     return False
 
 
@@ -272,8 +272,8 @@ def _uniform_inside(fn):
 
     def text(n):
         if isinstance(n, ast.Name) and n.id in src:
-            return ast.unparse(src[n.id])
-        return ast.unparse(n)
+            return U(src[n.id])
+        return U(n)
     sides = []
     for cmp_ in (cond.left, cond.right):
         if not (isinstance(cmp_, ast.Compare) and len(cmp_.ops) == 1):
@@ -283,12 +283,12 @@ def _uniform_inside(fn):
             l, r, op = r, l, {"GtE": "LtE", "Gt": "Lt"}[op]
         sides.append((l, op, r))
     want = {("self.lower", "LtE", "theta[self.variables]"), ("theta[self.variables]", "LtE", "self.upper")}
-    in_body = any(isinstance(s, ast.Return) and ast.unparse(s.value) == "self.normalisation" for s in ifs[0].body)
+    in_body = any(isinstance(s, ast.Return) and U(s.value) == "self.normalisation" for s in ifs[0].body)
     return set(sides) == want and in_body
 
 
 def _bounds_match(node, support, call, law):
-    txt = ast.unparse(node)
+    txt = U(node)
     lo, hi = support
     if isinstance(lo, str):
         # uniform: [(lo, up) for lo, up in zip(self.lower, self.upper)] with the draw's low/high
@@ -296,11 +296,11 @@ def _bounds_match(node, support, call, law):
         high = get_kw(call, "high", 1)
         if isinstance(node, ast.ListComp) and len(node.generators) == 1:
             g = node.generators[0]
-            if (isinstance(g.iter, ast.Call) and ast.unparse(g.iter.func) == "zip" and len(g.iter.args) == 2
-                    and ast.unparse(g.iter.args[0]) == ast.unparse(low)
-                    and ast.unparse(g.iter.args[1]) == ast.unparse(high)
+            if (isinstance(g.iter, ast.Call) and U(g.iter.func) == "zip" and len(g.iter.args) == 2
+                    and U(g.iter.args[0]) == U(low)
+                    and U(g.iter.args[1]) == U(high)
                     and isinstance(g.target, ast.Tuple) and isinstance(node.elt, ast.Tuple)
-                    and [ast.unparse(e) for e in node.elt.elts] == [ast.unparse(e) for e in g.target.elts]):
+                    and [U(e) for e in node.elt.elts] == [U(e) for e in g.target.elts]):
                 return True, ""
         return False, f"bounds {txt} are not the (low, high) pairs of the draw"
     # constant pair replicated n_params times
@@ -310,7 +310,7 @@ def _bounds_match(node, support, call, law):
             pair = ast.literal_eval(node.left.elts[0])
         except Exception:
             return False, f"bounds {txt} not a constant pair"
-        if tuple(pair) == (lo, hi) and ast.unparse(node.right) == "self.n_params":
+        if tuple(pair) == (lo, hi) and U(node.right) == "self.n_params":
             return True, ""
         return False, f"bounds {txt} differ from the support ({lo}, {hi})"
     return False, f"bounds {txt} not recognised"
@@ -326,29 +326,29 @@ def _combine(prog, ci, c, cfn, attrs):
     for st in cfn.body:
         if isinstance(st, ast.Assign) and len(st.targets) == 1 and isinstance(st.targets[0], ast.Name):
             v = st.value
-            if isinstance(v, ast.Call) and ast.unparse(v.func) == "concatenate" and len(v.args) == 1 \
+            if isinstance(v, ast.Call) and U(v.func) == "concatenate" and len(v.args) == 1 \
                     and isinstance(v.args[0], ast.ListComp):
                 lc = v.args[0]
                 g = lc.generators[0]
-                if len(lc.generators) == 1 and not g.ifs and ast.unparse(g.iter) == pname \
-                        and isinstance(lc.elt, ast.Attribute) and ast.unparse(lc.elt.value) == ast.unparse(g.target):
+                if len(lc.generators) == 1 and not g.ifs and U(g.iter) == pname \
+                        and isinstance(lc.elt, ast.Attribute) and U(lc.elt.value) == U(g.target):
                     built[st.targets[0].id] = lc.elt.attr
                 else:
-                    problems.append(f"{ast.unparse(st)} does not iterate `{pname}` in order")
+                    problems.append(f"{U(st)} does not iterate `{pname}` in order")
         elif isinstance(st, ast.For):
-            if ast.unparse(st.iter) == pname and len(st.body) == 1 and isinstance(st.body[0], ast.Expr):
+            if U(st.iter) == pname and len(st.body) == 1 and isinstance(st.body[0], ast.Expr):
                 call = st.body[0].value
                 if isinstance(call, ast.Call) and isinstance(call.func, ast.Attribute) and call.func.attr == "extend" \
                         and isinstance(call.args[0], ast.Attribute) \
-                        and ast.unparse(call.args[0].value) == ast.unparse(st.target):
-                    built[ast.unparse(call.func.value)] = call.args[0].attr
+                        and U(call.args[0].value) == U(st.target):
+                    built[U(call.func.value)] = call.args[0].attr
                     continue
             problems.append(f"loop at line {st.lineno} does not iterate `{pname}` in order")
     ret = last_return(cfn)
     kws = {}
-    if ret is not None and isinstance(ret.value, ast.Call) and ast.unparse(ret.value.func) == cfn.args.args[0].arg:
+    if ret is not None and isinstance(ret.value, ast.Call) and U(ret.value.func) == cfn.args.args[0].arg:
         for k in ret.value.keywords:
-            kws[k.arg] = built.get(ast.unparse(k.value))
+            kws[k.arg] = built.get(U(k.value))
     init = ci.methods["__init__"]
     init_params = [a.arg for a in init.args.args[1:]]
     # constructor keyword -> attribute: parameter p is stored as self.<attr> ; accept p == attr
@@ -372,19 +372,19 @@ def _scatter(c, fn, mname):
     ok, why = False, "no scatter loop found"
     ret = last_return(fn)
     for st in fn.body:
-        if isinstance(st, ast.For) and ast.unparse(st.iter) == "self.components" and isinstance(st.target, ast.Name):
+        if isinstance(st, ast.For) and U(st.iter) == "self.components" and isinstance(st.target, ast.Name):
             v = st.target.id
             if len(st.body) == 1 and isinstance(st.body[0], ast.Assign):
                 a = st.body[0]
                 t = a.targets[0]
-                if (isinstance(t, ast.Subscript) and ast.unparse(t.slice) == f"{v}.variables"
-                        and isinstance(a.value, ast.Call) and ast.unparse(a.value.func) == f"{v}.{mname}"
-                        and [ast.unparse(x) for x in a.value.args] == [p.arg for p in fn.args.args[1:]]
+                if (isinstance(t, ast.Subscript) and U(t.slice) == f"{v}.variables"
+                        and isinstance(a.value, ast.Call) and U(a.value.func) == f"{v}.{mname}"
+                        and [U(x) for x in a.value.args] == [p.arg for p in fn.args.args[1:]]
                         and not a.value.keywords
-                        and ret is not None and ast.unparse(ret.value) == ast.unparse(t.value)):
+                        and ret is not None and U(ret.value) == U(t.value)):
                     ok = True
                 else:
-                    why = f"scatter statement is `{ast.unparse(a)}`"
+                    why = f"scatter statement is `{U(a)}`"
     return struct_ob("routing", qual(c, fn), ok,
                      f"every component's {mname} must be written to that component's own `variables`: {why}",
                      REL, fn.lineno)
@@ -395,20 +395,20 @@ def _joint_bounds(jp, init):
     src = {}
     for st in ast.walk(init):
         if isinstance(st, ast.Assign) and len(st.targets) == 1:
-            src[ast.unparse(st.targets[0])] = st.value
+            src[U(st.targets[0])] = st.value
     ok, why = False, ""
     try:
         ab, ai, both, sb = src["all_bounds"], src["all_inds"], src["both"], src["self.bounds"]
-        c1 = ast.unparse(ab) == "chain(*[c.bounds for c in self.components])"
-        c2 = ast.unparse(ai) == "chain(*[c.variables for c in self.components])"
-        c3 = (isinstance(both, ast.Call) and ast.unparse(both.func) == "sorted"
-              and "zip(all_bounds, all_inds)" in ast.unparse(both.args[0])
-              and any(k.arg == "key" and ast.unparse(k.value) == "lambda x: x[1]" for k in both.keywords)
+        c1 = U(ab) == "chain(*[c.bounds for c in self.components])"
+        c2 = U(ai) == "chain(*[c.variables for c in self.components])"
+        c3 = (isinstance(both, ast.Call) and U(both.func) == "sorted"
+              and "zip(all_bounds, all_inds)" in U(both.args[0])
+              and any(k.arg == "key" and U(k.value) == "lambda x: x[1]" for k in both.keywords)
               and not any(k.arg == "reverse" for k in both.keywords))
         lc = both.args[0]
-        c3 = c3 and isinstance(lc, ast.ListComp) and ast.unparse(lc.elt) == "(b, i)" \
-            and ast.unparse(lc.generators[0].target) == "(b, i)"
-        c4 = ast.unparse(sb) == "[v[0] for v in both]"
+        c3 = c3 and isinstance(lc, ast.ListComp) and U(lc.elt) == "(b, i)" \
+            and U(lc.generators[0].target) == "(b, i)"
+        c4 = U(sb) == "[v[0] for v in both]"
         ok = c1 and c2 and c3 and c4
         why = f"{c1=} {c2=} {c3=} {c4=}"
     except KeyError as e:
@@ -423,7 +423,7 @@ def _combine_coverage(prog, jp, init):
     listed = set()
     for st in ast.walk(init):
         if isinstance(st, ast.For) and isinstance(st.iter, ast.List):
-            names = [ast.unparse(e) for e in st.iter.elts]
+            names = [U(e) for e in st.iter.elts]
             if any(n in prog.classes for n in names):
                 listed |= set(names)
     have = {ci.name for ci in prog.subclasses("BasePrior") if "combine" in ci.methods}
@@ -444,15 +444,15 @@ def _guess_order(c, fn):
         sl = ret.value.slice
         base = ret.value.value
         val = src.get(base.id) if isinstance(base, ast.Name) else base
-        c1 = sl.lower is None and sl.step is None and ast.unparse(sl.upper) == "n_guesses"
-        c2 = (isinstance(val, ast.Call) and ast.unparse(val.func) == "sorted"
-              and any(k.arg == "key" and ast.unparse(k.value) == "self.cost" for k in val.keywords)
+        c1 = sl.lower is None and sl.step is None and U(sl.upper) == "n_guesses"
+        c2 = (isinstance(val, ast.Call) and U(val.func) == "sorted"
+              and any(k.arg == "key" and U(k.value) == "self.cost" for k in val.keywords)
               and not any(k.arg == "reverse" for k in val.keywords))
         c3 = False
         if c2 and isinstance(val.args[0], ast.ListComp):
             lc = val.args[0]
-            c3 = (ast.unparse(lc.elt) == "self.prior.sample()"
-                  and ast.unparse(lc.generators[0].iter) == "range(prior_samples)")
+            c3 = (U(lc.elt) == "self.prior.sample()"
+                  and U(lc.generators[0].iter) == "range(prior_samples)")
         ok = c1 and c2 and c3
         why = f"{c1=} {c2=} {c3=}"
     return struct_ob("guess-order", qual(c, fn), ok,
